@@ -211,6 +211,8 @@ class PseudoOperand(Operand):
                 self.value = DirectNumericValue(self.value.int)
 
     def resolve_symbols(self, symbol_table):
+        if self.instruction.mnemonic in ["FCB", "FDB", "RMB"] and (self.value.is_symbol() or self.value.is_expression()):
+            self.value = self.value.resolve(symbol_table)
         return self
 
     def translate(self):
@@ -220,7 +222,7 @@ class PseudoOperand(Operand):
                 size=self.value.byte_len(),
                 max_size=self.value.byte_len()
             ) if self.value.is_multi_byte() else CodePackage(
-                additional=NumericValue(self.value.int, size_hint=2),
+                additional=self.value,
                 size=1,
                 max_size=1
             )
@@ -231,12 +233,14 @@ class PseudoOperand(Operand):
                 size=self.value.byte_len(),
                 max_size=self.value.byte_len()
             ) if self.value.is_multi_word() else CodePackage(
-                additional=NumericValue(self.value.int, size_hint=4),
+                additional=self.value,
                 size=2,
                 max_size=2
             )
 
         if self.instruction.mnemonic == "RMB":
+            if not self.value.is_numeric() or self.value.is_negative():
+                raise OperandTypeError("[{}] is not a number of bytes to reserve".format(self.operand_string))
             return CodePackage(
                 additional=NumericValue(0, size_hint=self.value.int*2),
                 size=self.value.int,
